@@ -37,7 +37,7 @@ ANCHORS = [
 FLOORS = {'*': {'op:add': 500, 'op:replace': 50, 'op:remove-method': 50, 'op:remove-endpoint': 30, 'op:reset': 30,
                 'op:call': 500, 'op:batch': 200, 'op:batch-of-one': 50, 'op:replace-negative-index': 20, 'op:restart': 50, 'backend:runs': 12, 'backend:passthrough': 4, 'once-exhausted-inside-batch': 10, 'passthrough': 50, 'refused': 50,
                 'unpatched-method': 50, 'client:sync': 200, 'client:async': 200, 'round-robin>=3': 30, 'callback': 50,
-                'id:falsy': 30}}
+                'id:falsy': 30, 'configured-error-through-the-client-api': 300, 'configured-error:code-with-a-class-of-its-own': 150}}
 
 ENDPOINTS = ['ep1', 'ep2']
 METHODS = ['ma', 'mb']
@@ -386,6 +386,58 @@ def run_backend(ctx, backend, url, passthrough_probe):
             pass
 
 
+ERROR_CODES = [-32700, -32600, -32601, -32602, -32603, -32000, 4001, 0, -32050]
+ERROR_MESSAGES = ['age must be positive', '', 'Invalid params', 'm\u00e9ssage']
+ERROR_DATA = ['__absent__', None, {'field': 'age'}, [1]]
+
+
+def run_client_error(ctx, code, message, data, how, is_async):
+    """the configured error of a patch, as the code under test sees it: through the real client API (send / call / batch
+    element). Code, message and data are the configured ones, whether or not the code has an error class of its own."""
+    ck = 'async' if is_async else 'sync'
+    target = f'{__name__}.{"MAsync" if is_async else "MSync"}._request'
+
+    def real_transport(text, is_notification, kwargs):
+        raise AssertionError('real transport reached')
+    client = (MAsync if is_async else MSync)(real_transport, endpoint='ep1')
+    cls = ('client-error', code, message, json.dumps(data), how, ck)
+    wit = dict(configured_error={'code': code, 'message': message, 'data': data}, through=how, client=ck)
+    kw = {} if data == '__absent__' else {'data': data}
+    configured = pjrpc.exc.JsonRpcError(code=code, message=message, **kw)
+    mocker = PjRpcMocker(target, passthrough=False)
+    mocker.start()
+    try:
+        mocker.add('ep1', 'ma', error=configured)
+        mocker.add('ep1', 'ok', result='fine')
+        if how == 'send':
+            st, out = clientside.outcome_of(lambda: client.send(pjrpc.Request('ma', [1], id=3)), is_async)
+            err = out.error if st == 'ret' and out is not None and not out.is_success else None
+        elif how == 'call':
+            st, out = clientside.outcome_of(lambda: client.call('ma', 1), is_async)
+            err = out if st == 'exc' and isinstance(out, pjrpc.exc.JsonRpcError) else None
+        else:
+            st, out = clientside.outcome_of(lambda: client.batch.send(pjrpc.BatchRequest(
+                pjrpc.Request('ok', id=1), pjrpc.Request('ma', [1], id=2))), is_async)
+            err = out[1].error if st == 'ret' and out is not None and len(out) == 2 and not out[1].is_success else None
+        ctx.hit('configured-error-through-the-client-api')
+        if code in (-32700, -32600, -32601, -32602, -32603, -32000):
+            ctx.hit('configured-error:code-with-a-class-of-its-own')
+        if err is None:
+            ctx.violation('configured-error-does-not-reach-the-caller', 'client-error', cls, outcome=[st, out], **wit)
+            return
+        got = {'code': err.code, 'message': err.message, 'data': '__absent__' if err.data is pjrpc.common.UNSET else err.data}
+        if not typed_eq(got, wit['configured_error']):
+            what = next(k for k in ('code', 'message', 'data') if not typed_eq(got[k], wit['configured_error'][k]))
+            ctx.violation(f'caller-sees-another-error-than-the-configured-one:{what}', 'client-error', cls, seen=got, **wit)
+            return
+        ctx.ok('client-error:' + how, cls, sample=wit)
+    finally:
+        try:
+            mocker.stop()
+        except Exception:
+            pass
+
+
 def call_ops(rng, rich):
     ids = [1, 7, 0, 'x', '']
     out = []
@@ -471,6 +523,12 @@ def gen(ctx):
         if ops[-1][0] not in ('call', 'batch'):
             ops.append(rng.choice(calls))
         yield from emit(ops)
+    for code in ERROR_CODES:
+        for message in ERROR_MESSAGES:
+            for data in ERROR_DATA:
+                for how in ('send', 'call', 'batch'):
+                    k += 1
+                    yield 'client_error', dict(code=code, message=message, data=data, how=how, is_async=bool(k % 2))
     for backend in ('requests', 'httpx', 'httpx-async', 'aiohttp'):
         yield 'backend_passthrough', dict(backend=backend)
         for url in URLS:
@@ -489,4 +547,4 @@ def gen(ctx):
         yield from emit(once + [['call', ep, [['mb', [1], 1]]], ['remove', ep, 'ma'], ['call', ep, [['ma', [3], 3]]]])
 
 
-KINDS = {'history': run_history, 'backend': run_backend, 'backend_passthrough': run_backend_passthrough}
+KINDS = {'history': run_history, 'backend': run_backend, 'backend_passthrough': run_backend_passthrough, 'client_error': run_client_error}
